@@ -15,7 +15,7 @@ def hCsvLines (j : Json) : R Json := do
 
 def hCsvFs (j : Json) : R Json := do
   let fs : FS := { files := ← strList j "files" }
-  let (fs', o) := toCsvFS fs (← str j "output") (← str j "tmp") (← nat j "size_mb") (← bool j "force")
+  let (fs', o) := toCsvFS fs (← str j "output") (← str j "tmp") (← nat j "bytes") (← bool j "force")
   return Json.mkObj [("files", ofStrList fs'.files),
     ("outcome", match o with | .wrote p => Json.str ("wrote:" ++ p) | .skipped => Json.str "skipped" | .refused => Json.str "refused")]
 
